@@ -306,7 +306,7 @@ class Check(PropertyCheck):
                   "x SNI/address forms x trust configuration; chain validity from cryptography.x509.verification.")
     level_note = ("PARTIAL (relative to library laws): chain building, signature and time checks are OpenSSL's — they enter the model as the Boolean chainOk and are "
                   "compared per case with cryptography's independent verifier, not proved; OpenSSL's host-name check is a hand transcription (Model/C15.lean "
-                  "osslMatches) validated only by the handshake matrix; ipaddress/idna classification of the server name is a parameter of the model. "
+                  "osslMatches) validated only by the handshake matrix; ipaddress/idna classification of the server name: transcribed for ASCII names (classifyAscii, tied by `cls` cases), still a parameter for non-ASCII names (the codec's nameprep/punycode path) and for OpenSSL's acceptance of the host parameter. "
                   "fail_sends_no_appdata is relative to C14's tunnel model and its run-to-completion assumption (C04). "
                   "ORACLE AUDIT — lenient branches, each exercised by known_selftest(): (a) outcome hookRaised (the hook built no connection object) is accepted only "
                   "when the case's own server name is unusable (idna codec / OpenSSL's set1_host refuse it — asked of the libraries directly — or it is empty with "
@@ -329,7 +329,7 @@ class Check(PropertyCheck):
                     "mitmproxy.proxy.layers.tls:TLSLayer.receive_handshake_data", "mitmproxy.proxy.layers.tls:TLSLayer.on_handshake_error",
                     "mitmproxy.proxy.layers.tls:ServerTLSLayer.on_handshake_error", "mitmproxy.proxy.layers.tls:TLSLayer.start_tls",
                     "mitmproxy.proxy.tunnel:TunnelLayer._handle_event", "mitmproxy.proxy.tunnel:TunnelLayer._handshake_finished",
-                    "mitmproxy.addons.tlsconfig:TlsConfig.quic_start_server", "mitmproxy.proxy.layers.quic._stream_layers:QuicLayer.start_tls",
+                    "mitmproxy.addons.tlsconfig:TlsConfig.quic_start_server", "mitmproxy.addons.tlsconfig:_ip_or_dns_name", "mitmproxy.proxy.layers.quic._stream_layers:QuicLayer.start_tls",
                     "mitmproxy.proxy.layers.quic._stream_layers:tls_settings_to_configuration"]
     trusted_base = ["OpenSSL (via pyOpenSSL): chain building, signature/time checks, X509_check_host/X509_check_ip semantics under the configured flags",
                     "cryptography.x509.verification as the independent chain verifier; Python ipaddress + idna codec",
@@ -419,6 +419,14 @@ class Check(PropertyCheck):
             for names in ("matching", "wildcard", "ip-san", "ip6-san", "idn", "idn-wildcard", "upper", "underscore-wildcard", "trailing-dot"):
                 yield hs(names, t)
             yield hs("mismatched", t, "insecure")
+        # tie of the transcribed classifier (C22.parseIp + idna ASCII fast path) to the real `_ip_or_dns_name`
+        cl = ["", "example.com", "www.example.com.", "a..b", ".a", "a.", "a" * 63 + ".com", "a" * 64 + ".com", "x." + "b" * 63, "x." + "b" * 64, "1.2.3.4", "1.2.3",
+              "1.2.3.4.5", "01.2.3.4", "256.1.1.1", "1.2.3.4 ", "::1", "::", "2001:db8::1", "2001:DB8::1", "::ffff:1.2.3.4", "1::2::3", "fe80::1%eth0", "fe80::1%",
+              "[::1]", "1.2.3.4/32", "*.example.com", "foo_bar", "EXAMPLE.COM", "xn--bcher-kva.example", "-a.com", "a b", "12345::", "0:0:0:0:0:0:0:0", "1:2:3:4:5:6:7:8:9",
+              "::1.2.3.4", "1.2.3.4.", ".", "..", "a" * 255, "192.0.2.1", "0x7f.1", "1.2.3.04", "٣.1.1.1"[1:]]
+        for t in cl + [t[0] for t in TARGETS if t[0]] + [t[2] for t in TARGETS]:
+            try: yield {"op": "cls", "s_hex": hx(t.encode("ascii"))}
+            except UnicodeEncodeError: pass
         # the name rule itself: pattern x reference
         pats = ["*.example.com", "w*.example.com", "*w.example.com", "*.com", "*", "*.*.com", "www.*.com", "WWW.example.COM", "www.example.com", "", ".",
                 "*.", "*.a", "*.a.b", "*.-a.b", "*.a-.b", "*.a.b-", "*.a..b", "*.a_b.c", "*.xn--bcher-kva.example", "*.EXAMPLE.com", "x.*.example.com", "**.example.com"]
@@ -430,7 +438,15 @@ class Check(PropertyCheck):
         alpha = b"*.aw-_.A*."
         while True:
             x = rng.random()
-            if x < 0.08:
+            if x < 0.06:
+                al = b"0123456789abcdefABCXYZ.:.:%-_*/ "
+                yield {"op": "cls", "s_hex": hx(bytes(rng.pick(al) for _ in range(rng.randint(0, 24))))}
+            elif x < 0.12:
+                v = rng.pick(["%d.%d.%d.%d" % tuple(rng.randint(0, 300) for _ in range(4)), ":".join("%x" % rng.randint(0, 0x1ffff) for _ in range(rng.randint(1, 9))),
+                              "::".join(":".join("%x" % rng.randint(0, 0xffff) for _ in range(rng.randint(0, 4))) for _ in range(2)),
+                              ".".join("a" * rng.randint(0, 66) for _ in range(rng.randint(1, 4)))])
+                yield {"op": "cls", "s_hex": hx(v.encode())}
+            elif x < 0.16:
                 t_val, t_iss = rng.pick(["ok", "ok", "expired"]), rng.pick(["rootA", "rootA", "rootB", "self", "rootC"])
                 snis = [HOST, "other.example.com", "bank.example.net", "a.b.example.com"]
                 yield seq(rng.pick(["matching", "wildcard", "mismatched"]), (rng.pick(snis), rng.pick(TRUST)), (rng.pick(snis), rng.pick(TRUST)))
@@ -466,6 +482,15 @@ class Check(PropertyCheck):
             addr = "10.77.%d.%d" % divmod(int(hashlib.sha256(json.dumps(case, sort_keys=True).encode()).hexdigest()[:4], 16), 256)
             return {"conns": [self._hs(dict(c, cert=case["conns"][0]["cert"], address=addr), sctx) for c in case["conns"]]}
         if case["op"] == "qhs": return self._qhs(case)
+        if case["op"] == "cls":
+            # the real `_ip_or_dns_name` of tlsconfig.py on a string (tie of the Lean transcription classifyAscii)
+            from mitmproxy.addons import tlsconfig
+            try:
+                g = tlsconfig._ip_or_dns_name(unhx(case["s_hex"]).decode("ascii"))
+            except ValueError:
+                return {"cls": "x"}
+            if isinstance(g, x509.IPAddress): return {"cls": "i:" + hx(bytes([g.value.version]) + g.value.packed)}
+            return {"cls": "d:" + hx(g.value.encode())}
         return self._hs(case, None)
 
     def _qhs(self, case):
@@ -637,7 +662,7 @@ class Check(PropertyCheck):
 
     # ---- oracle -------------------------------------------------------------------------------------------------
     def oracle(self, case, obs):
-        if case["op"] == "nm": return []
+        if case["op"] in ("nm", "cls"): return []
         if case["op"] == "seq":
             # the statement holds for every connection, whatever happened on earlier ones
             cert = case["conns"][0]["cert"]
@@ -712,6 +737,7 @@ class Check(PropertyCheck):
 
     # ---- model tie ----------------------------------------------------------------------------------------------
     def model_lines(self, case):
+        if case["op"] == "cls": return [f"cls {case['s_hex']}"]
         if case["op"] == "nm":
             return [f"match {case['p_hex']} {case['r_hex']}"]
         if case["op"] == "seq":
@@ -734,6 +760,7 @@ class Check(PropertyCheck):
         return [f"hs {int(case['trust'].startswith('insecure'))} {o(case['server_sni'])} {o(case['client_sni'])} {hx(case['address'].encode())} {cls or 'x'} {chain} {sans}"]
 
     def model_obs(self, case, replies):
+        if case["op"] == "cls": return replies[0]
         if case["op"] == "seq":
             return [self.model_obs(dict(c, op="hs"), [r]) for c, r in zip(case["conns"], replies)]
         r = replies[0]
@@ -745,6 +772,7 @@ class Check(PropertyCheck):
         return {"outcome": f[0], "sni_ext": None if f[0] == "hookRaised" else ext}
 
     def impl_view(self, case, obs):
+        if case["op"] == "cls": return obs["cls"]
         if case["op"] == "seq":
             return [self.impl_view(dict(c, op="hs"), o) for c, o in zip(case["conns"], obs["conns"])]
         if case["op"] == "nm": return "spec=%d" % int(obs["py"])
@@ -754,12 +782,14 @@ class Check(PropertyCheck):
         return {"outcome": obs["outcome"], "sni_ext": None if obs["outcome"] == "hookRaised" else ("none" if ext is None else ext)}
 
     def classify(self, case, obs):
+        if case["op"] == "cls": return ("cls", case["s_hex"])
         if case["op"] == "seq": return json.dumps(case, sort_keys=True)
         if case["op"] == "nm": return ("nm", case["p_hex"], case["r_hex"])
         if "exc" in obs or obs["outcome"] == "hookRaised": return None
         return json.dumps(case, sort_keys=True)
 
     def branches(self, case, obs):
+        if case["op"] == "cls": return ["cls:" + obs["cls"][0]]
         if case["op"] == "seq":
             return ["seq:" + ">".join(o.get("outcome", "exc") for o in obs["conns"])]
         if case["op"] == "nm": return ["nm:" + ("match" if obs["py"] else "no-match")]
